@@ -6,7 +6,7 @@ def _proj_c05(op, line):
     return line
 
 PROPS["C05"] = {
-    "families": {"link": {"quick": 120, "thorough": 4000}, "sock": {"quick": 6, "thorough": 150}},
+    "families": {"link": {"quick": 120, "thorough": 4000}, "sock": {"quick": 7, "thorough": 154}},
     "mon_clauses": ["C05.", "C09.panic"],
     "project": _proj_c05,
     "claim": "Two REAL engines (initiator + acceptor, memory or file stores) are driven through generated fault histories (sends on both sides also while disconnected, "
@@ -24,7 +24,7 @@ PROPS["C05"] = {
              "Deliveries + heartbeats alone can leave a link stuck (needs the peer/logon/logout timeouts or a reconnect): #guard + corpus/C05/stuck-without-timeouts.ops, same on the real engines. "
              "SAMPLED socket layer (family `sock`): a real quickfix.NewAcceptor and a real quickfix.NewInitiator (generated Settings: FIX.4.2/4.4/FIXT.1.1, memory or file store, "
              "ResendRequestChunkSize 0-3, ReconnectInterval 0.2-1 s, HeartBtInt 1-2 s) talk through a TCP proxy of the harness on loopback that passes, splits, holds and releases bytes, "
-             "cuts the connection (losing what it holds) and refuses connections; both sides submit with SendToTarget also while the link is down; engines are stopped and recreated on the file store. "
+             "cuts the connection (losing what it holds), refuses connections, and — one round in seven, so at least one per quick run, which one and in which direction is a function of the seed — watches the bytes and resets the connection when the first replayed message (43=Y) of a 2000-3000 message backlog passes, i.e. in the middle of the burst of blocking sends answering a ResendRequest; both sides submit with SendToTarget also while the link is down; engines are stopped and recreated on the file store. "
              "The Lean side predicts NO interleaving for these rounds, only the verdict the theorems give for every schedule; the same prefix monitor (`Qfx.Link.monLink`) decides each round: "
              "at every delivery the delivered list is a prefix of what the other side had submitted, after settling (both logged on, everything delivered or three quiet heartbeat intervals, bound 10 s) "
              "delivered = submitted in both directions, every OnLogon is closed by one OnLogout, no panic and no crashed process. This ties acceptor.go / initiator.go / connection.go / the run loop of session.go "
@@ -33,8 +33,8 @@ PROPS["C05"] = {
             "sockets, goroutine scheduling, reconnect timers and bufio are outside the model (partial): the family `sock` runs them for real but only SAMPLES schedules (the Go scheduler and TCP timing are not controlled, "
             "a round is one schedule); liveness rests on the correspondence runs only",
     "rule": "seeded fault histories of 30-80 events + settling rounds; BeginString 4.0-4.4/FIXT, chunk sizes 0-4 per side, memory/file store; distinct = distinct (configuration, case); "
-            "sock: one seeded round per case (1-4 link faults: cut, hold+cut, hold+release, outage, engine restart; 10-60 submissions), each in its own worker process, 3 (quick) / 6 (thorough) rounds in flight",
+            "sock: one seeded round per case (1-4 link faults: cut, hold+cut, hold+release, outage, engine restart; 10-60 submissions; every 7th round: backlog of 2000-3000 submitted while down + reset on the first replayed message), each in its own worker process, 3 (quick) / 6 (thorough) rounds in flight",
     "assumptions": ["sequence resets disabled; ToApp always accepts", "a cut loses everything still in flight (partial loss = deliveries followed by a cut)",
-                    "sock: scheduler and TCP timing are outside the model; a round whose bounded waits ran out (not settled within 10 s, Stop not back within 8 s, worker silent) is repeated up to twice "
+                    "sock: scheduler and TCP timing are outside the model; a round whose bounded waits ran out (not settled within 10 s, Stop not back within 8 s, SendToTarget not back within 3 s, worker silent) is repeated up to twice "
                     "(at most 8 repeats per run) and only then reported as C05.sock_not_settled; a lost, duplicated or reordered message, a panic or a crash is never repeated"],
 }
